@@ -31,6 +31,7 @@ import (
 	netutil "github.com/samaritan-proxy/samaritan/proc/internal/net"
 	"github.com/samaritan-proxy/samaritan/proc/internal/syscall"
 	"github.com/samaritan-proxy/samaritan/proc/redis/hotkey"
+	"github.com/samaritan-proxy/samaritan/utils/vhook"
 )
 
 const (
@@ -330,6 +331,7 @@ func (u *upstream) handleRedirection(req *simpleRequest, resp *RespValue) {
 			*newBulkString(ASKING),
 		))
 		u.MakeRequestToHost(hostAddr, askingReq)
+		vhook.At("redis.upstream.ask.between")
 		u.MakeRequestToHost(hostAddr, req)
 	}
 	u.triggerSlotsRefresh()
@@ -596,6 +598,7 @@ func (c *client) Start() {
 		close(c.quit)
 	})
 	<-writeDone
+	vhook.At("redis.client.start.before_drain")
 	c.drainRequests()
 	close(c.done)
 }
@@ -605,6 +608,7 @@ func (c *client) Send(req *simpleRequest) {
 	case <-c.quit:
 		req.SetResponse(newError(backendExited))
 	default:
+		vhook.At("redis.client.send.before_enqueue")
 		c.pendingReqs <- req
 	}
 }
@@ -620,6 +624,7 @@ func (c *client) loopWrite() {
 			return
 		case req = <-c.pendingReqs:
 		}
+		vhook.At("redis.client.write.after_dequeue")
 
 		switch c.filter.Do(req) {
 		case Continue:
@@ -638,6 +643,7 @@ func (c *client) loopWrite() {
 			}
 		}
 
+		vhook.At("redis.client.write.before_handoff")
 		select {
 		case <-c.quit:
 			return
